@@ -125,9 +125,15 @@ class Track:
         self.items = []
 
 
-def _check_container(tr, fails, history):
+def _check_container(tr, fails, history, cached=False):
     try:
-        cont = tr.getter()
+        if cached:
+            # the same container object for the whole scenario: caches inside the handle must not go stale
+            if getattr(tr, "_cached", None) is None:
+                tr._cached = tr.getter()
+            cont = tr._cached
+        else:
+            cont = tr.getter()
         exp = tr.items
         got = [(e.name, e.id) for e in cont]
         if got != exp:
@@ -314,11 +320,15 @@ def _scenario(ctx, rng, steps, tag):
                     _check_container(t2, fails, history)
                 f.close()
                 f = nixio.File.open(path, nixio.FileMode.ReadWrite)
+                for t2 in tracks:
+                    t2._cached = None
             _check_container(tr, fails, history)
+            _check_container(tr, fails, history, cached=True)
             if len(fails) > 5:
                 break
         for t2 in tracks:
             _check_container(t2, fails, history)
+            _check_container(t2, fails, history, cached=True)
     finally:
         try:
             f.close()
